@@ -3,6 +3,7 @@ use super::*;
 use crate::verif_nat_util::*;
 
 pub fn dispatch(k: &str, t: &[&str]) -> Option<String> {
+    if k != "packed_strings" && k != "packed_bytes" { return None; }
     let items: Vec<Vec<u8>> = if t.len() == 1 && t[0] == "none" { vec![] } else { t.iter().map(|h| unhex(h)).collect() };
     match k {
         "packed_strings" => {
